@@ -9,8 +9,17 @@ scheduler and the wall-clock bound are checked on scenarios (partial).
 import OAP.Model.Client.Quartet
 import OAP.Model.Client.SingleFlight
 import OAP.Proofs.Waiters
+import OAP.Gen.Facts
 namespace OAP.C06
 open OAP
+
+/-- T2 structure facts, regenerated from go/client on every run (the operations themselves, in source order): closeByServer closes the conn WITHOUT holding the client lock; Do holds the read lock for the whole call and checks conn before use; the close notification checks the closed signal first -/
+theorem source_order :
+    Gen.seq_client_closeByServer = ["conn.Close", "c.reconnecting"] ∧
+    Gen.seq_client_Do = ["c.RLock", "defer:c.RUnlock", "protocol.NewRequest", "c.register", "defer:c.unregister", "conn.Write", "c.recv"] ∧
+    Gen.seq_client_onConnClose = ["select", "recv:c.closeCh", "default", "c.reconnecting"] := by
+  decide
+
 
 /-- LOCK DISCIPLINE + NO DEADLOCK: in every reachable state of the lifecycle quartet (user Close; a reader whose
 read error runs conn.Close → close callback → reconnecting with the write lock, the flag, the spawned retry goroutine
@@ -36,16 +45,18 @@ and an idle call can always start — no state of the Waiters view blocks a call
 theorem do_waits_timed (s : Waiters.St) (i : Nat) :
     (∀ c r, s.call i = .written c r → (Waiters.step s (.giveUp i)).isSome = true) ∧
     (∀ c r, s.call i = .registered c r → (Waiters.step s (.write i true)).isSome = true ∧ (Waiters.step s (.write i false)).isSome = true) ∧
-    (s.call i = .idle → (Waiters.step s (.start i)).isSome = true) := by
+    (∀ rid, s.call i = .idle → s.issued rid = false → (Waiters.step s (.start i rid)).isSome = true) := by
   refine ⟨?_, ?_, ?_⟩
   · intro c r h; simp [Waiters.step, h]
   · intro c r h; simp [Waiters.step, h]
-  · intro h; simp [Waiters.step, h]
+  · intro rid h hi; simp [Waiters.step, h, hi]
 
 /-- a call whose waiter is closed by the recovery's fail-all returns an error — it does not receive a nil packet and
 never closes the channel a second time (the channel is closed in exactly one place): the step is a plain transition -/
 theorem failed_waiter_returns_error (s : Waiters.St) (i c r : Nat) (h : s.call i = .written c r) (hc : s.chan i = .closed) :
-    ∃ s', Waiters.step s (.wake i) = some s' ∧ s'.call i = .done c r none := by
-  refine ⟨_, by simp [Waiters.step, h, hc]; rfl, by simp [Waiters.upd]⟩
+    Waiters.step s (.wake i) = some { s with call := Waiters.upd s.call i (.returning c r none) } ∧
+    (∀ s', s'.call i = Waiters.CallPc.returning c r none → (Waiters.step s' (.finish i)).isSome = true) := by
+  refine ⟨by simp [Waiters.step, h, hc], ?_⟩
+  intro s' h'; simp [Waiters.step, h']
 
 end OAP.C06
